@@ -6,6 +6,8 @@ package simapp
 // the full application with the internal route. Reference: feeRef in math/big.
 
 import (
+	"github.com/cosmos/btcutil/bech32"
+	"bytes"
 	"context"
 	"fmt"
 	"math/big"
@@ -73,6 +75,9 @@ func (w *World) c04Menus() (fullMenu, subMenu []feeShape) {
 		feeShape{Name: "bps100>invalid", To: "noble1invalid", Bps: 100},
 		feeShape{Name: "bps100>empty", To: "", Bps: 100},
 		feeShape{Name: "fix1>otherHRP", To: encodingsOf(w.Fee1)[5].S, Fix: "1", IsFx: true},
+		// well-formed bech32 under the right prefix whose payload is not an address: no bytes at all, 256 bytes (seed C04i)
+		feeShape{Name: "bps100>bech32(noble,0 bytes)", To: mustBech32("noble", nil), Bps: 100},
+		feeShape{Name: "fix1>bech32(noble,256 bytes)", To: mustBech32("noble", bytes.Repeat([]byte{7}, 256)), Fix: "1", IsFx: true},
 	)
 	subMenu = []feeShape{
 		{Name: "bps1>fee1", To: f1, Bps: 1}, {Name: "bps3333>fee2", To: f2, Bps: 3333}, {Name: "bps5000>fee1", To: f1, Bps: 5000},
@@ -447,4 +452,16 @@ func c04Stack(rep *Report, w *World, A *big.Int, base string, list []feeShape) {
 
 func newFeeController(bank *recBank) (*actionctrl.FeeController, error) {
 	return actionctrl.NewFeeController(silentLogger, runtime.ProvideEventService(), bank)
+}
+
+func mustBech32(hrp string, bz []byte) string {
+	conv, err := bech32.ConvertBits(bz, 8, 5, true)
+	if err != nil {
+		panic(err)
+	}
+	out, err := bech32.Encode(hrp, conv)
+	if err != nil {
+		panic(err)
+	}
+	return out
 }
